@@ -112,7 +112,8 @@ def run(tier, replay):
     for l in lines:
         r = json.loads(l)
         (rej if r["parsed"].get("k") == "err" else acc)[r["a"]] += 1
-    if not replay and (acc["rt"] < 200 or acc["prec"] < 50 or rej["rt"] == 0 or rej["prec"] == 0):
+    # vacuity guard (only meaningful when nothing was flagged: a broken limiter shows up as violations, not as vacuity)
+    if not replay and not R.violations and not R.known_hits and (acc["rt"] < 200 or acc["prec"] < 50 or rej["rt"] == 0 or rej["prec"] == 0):
         lib.tool_error(f"observations are vacuous: accepted {acc} rejected {rej}")
     R.coverage = {
         "states": sum(m["distinct"] for m in mcs), "transitions": sum(m["generated"] for m in mcs),
